@@ -366,7 +366,77 @@ func c08Images(c *fw.C, caseID string) {
 			}
 		}
 	}
+	// a rollback of SEVERAL momentums in one call (what a reorganisation does): every crash point must leave exactly
+	// one of the states "k momentums rolled back", k = 0..d — frontier, keys and the stored redo/undo entries agreeing
+	if r.Intn(2) == 0 {
+		d := 2 + r.Intn(3)
+		h := F.Height() + 1
+		for i := 0; i < d; i++ {
+			for k := 0; k < []int{0, 2, 9}[r.Intn(3)]; k++ {
+				w.One()
+			}
+			if _, err := P.Produce(0); err != nil {
+				c.Inconclusive("producer: " + err.Error())
+				return
+			}
+		}
+		if F.Height() < P.Height() {
+			if err := F.SyncFrom(P, 8); err != nil {
+				c.Violation("follower-refuses-producers-momentum", err.Error())
+				return
+			}
+		}
+		top := F.Height()
+		h = top - uint64(d) + 1
+		s0 := fmt.Sprintf("%s/S0-deep", base)
+		s1 := fmt.Sprintf("%s/S1-deep", base)
+		if err := c08copyDir(F.Dir, s0); err != nil {
+			c.Inconclusive(err.Error())
+			return
+		}
+		// the admissible intermediate states, from crash-free partial rollbacks of copies
+		c08ExtraAdmissible = nil
+		for k := 1; k < d; k++ {
+			tmp := fmt.Sprintf("%s/mid-%d", base, k)
+			if err := c08copyDir(s0, tmp); err != nil {
+				c.Inconclusive(err.Error())
+				return
+			}
+			okk := c08Reopen(c, tmp, func(n *simnet.Node) {
+				m, _ := n.Chain.GetFrontierMomentumStore().GetMomentumByHeight(top - uint64(k))
+				ins := n.Chain.AcquireInsert("c08 partial rollback")
+				_ = n.Chain.RollbackTo(ins, m.Identifier())
+				ins.Unlock()
+			})
+			if raw, err := simnet.RawDump(tmp); okk && err == nil {
+				c08ExtraAdmissible = append(c08ExtraAdmissible, raw)
+			}
+			os.RemoveAll(tmp)
+		}
+		prev, _ := F.Chain.GetFrontierMomentumStore().GetMomentumByHeight(h - 1)
+		ins := F.Chain.AcquireInsert("c08 deep rollback")
+		err := F.Chain.RollbackTo(ins, prev.Identifier())
+		ins.Unlock()
+		if err != nil {
+			c.Violation("rollback-error", err.Error())
+			return
+		}
+		if err := c08copyDir(F.Dir, s1); err != nil {
+			c.Inconclusive(err.Error())
+			return
+		}
+		redeliver := simnet.CloneBatch(P.Range(h, top))
+		c08CheckOp(c, base, nOps, fmt.Sprintf("rollback-of-%d", d), len(redeliver[0].AccountBlocks), s0, s1, redeliver, redeliver, P, h)
+		c08ExtraAdmissible = nil
+		c.Count("multi_momentum_rollbacks_monitored", 1)
+		os.RemoveAll(s0)
+		os.RemoveAll(s1)
+	}
 }
+
+// c08ExtraAdmissible: further admissible crash states of the operation being checked (intermediate states of a
+// multi-momentum rollback). An image equal to one of them is fine; the continuation is then not compared.
+var c08ExtraAdmissible []map[string]string
 
 // c08Reopen opens an image with the real manager + chain (chain.Init), runs f, stops. A panic while
 // reopening is a violation (the store cannot be recovered).
@@ -463,6 +533,19 @@ func c08CheckOp(c *fw.C, base string, op int, kind string, blocks int, s0, s1 st
 		}
 		is0 := len(simnet.DiffDumps(raw0, raw, 1)) == 0
 		is1 := len(simnet.DiffDumps(raw1, raw, 1)) == 0
+		if !is0 && !is1 {
+			mid := false
+			for _, x := range c08ExtraAdmissible {
+				if len(simnet.DiffDumps(x, raw, 1)) == 0 {
+					mid = true
+				}
+			}
+			if mid {
+				c.Count("crash_images_equal_to_an_intermediate_rollback_state", 1)
+				os.RemoveAll(img)
+				continue
+			}
+		}
 		if !is0 && !is1 {
 			c.Violation(fmt.Sprintf("crash-image-neither-before-nor-after %s", kind), map[string]interface{}{
 				"operation": kind, "blocks_in_momentum": blocks, "cut": ct.desc, "records_appended": len(newEnds),
